@@ -26,7 +26,7 @@ def generate(seed, tier):
             for enc in encs:
                 fams = [0, 3] if piv else [0]
                 if n >= 32:
-                    if quick and not (st in ('BlockLU', 'BlockLUPiv') and enc in (0, 1)):
+                    if quick and not (st in ('BlockLU', 'BlockLUPiv') and (enc in (0, 1) or n == 33)):     # the wrappers differ per permutation encoding: the matrix form too, once, above the 32 boundary
                         continue
                     fams = fams[-1:]
                 elif quick and n > 9:
